@@ -454,7 +454,10 @@ func slicesEqual(x, y any) (err error) {
 		// Get primitives out of the way
 		var tried bool
 		if tried, err = primitivesEqual(xv, yv); tried {
-			return
+			// keep going: a mismatch ends the loop
+			// through its condition, a match must
+			// not end the comparison early.
+			continue
 		}
 
 		err = valuesEqual(xv, yv)
